@@ -988,12 +988,10 @@ class TJPTransformer(Transformer[Any, Any]):
     def _get_value(self, item: Any) -> Any:
         """Extract value from Token or string."""
         if isinstance(item, Token):
-            val = item.value
-            if val.startswith('"') and val.endswith('"'):
-                return val[1:-1]
-            return val
-        elif isinstance(item, str):
-            if item.startswith('"') and item.endswith('"'):
+            item = item.value
+        if isinstance(item, str):
+            # The grammar knows two quoting styles: "text" and 'text'
+            if len(item) >= 2 and item[0] == item[-1] and item[0] in "\"'":
                 return item[1:-1]
             return item
         return item
